@@ -33,13 +33,20 @@ pub(crate) struct CustomTypeParser<'result> {
     /// When we encounter a `FrozenType(...)`, this field is set to true for the duration
     /// of parsing the inner type, and then set back to false.
     frozen_context: bool,
+    /// Current nesting depth of `do_parse` calls. Types are parsed recursively,
+    /// so the depth accepted from the wire has to be bounded.
+    depth: usize,
 }
+
+/// Maximum nesting depth of a custom type accepted from the wire.
+const MAX_CUSTOM_TYPE_NESTING_DEPTH: usize = 128;
 
 impl<'result> CustomTypeParser<'result> {
     fn new(input: &'result str) -> CustomTypeParser<'result> {
         Self {
             parser: ParserState::new(input),
             frozen_context: false,
+            depth: 0,
         }
     }
 
@@ -255,6 +262,7 @@ impl<'result> CustomTypeParser<'result> {
         let mut backup = Self {
             parser: self.parser,
             frozen_context: self.frozen_context,
+            depth: self.depth,
         };
 
         // FIXME: Rewrite using std::iter::FromIterator::collect_array after it is stabilized.
@@ -362,6 +370,18 @@ impl<'result> CustomTypeParser<'result> {
     }
 
     fn do_parse(&mut self) -> Result<ColumnType<'result>, CustomTypeParseError> {
+        if self.depth >= MAX_CUSTOM_TYPE_NESTING_DEPTH {
+            return Err(CustomTypeParseError::TypeNestingTooDeep(
+                MAX_CUSTOM_TYPE_NESTING_DEPTH,
+            ));
+        }
+        self.depth += 1;
+        let result = self.do_parse_nested();
+        self.depth -= 1;
+        result
+    }
+
+    fn do_parse_nested(&mut self) -> Result<ColumnType<'result>, CustomTypeParseError> {
         self.skip_blank();
 
         let mut name = self.read_next_identifier();
